@@ -1,20 +1,24 @@
 """Seeded boundary sampler of abstract values over an abstract schema.
 
-Draws only *canonical, well-typed* values (the domain of C01/C02): integers inside the Kafka
-type's range, whole-millisecond durations inside the Python-representable range, timestamps
-the library's own timestamp type admits (asked through isinstance, so the sampler follows
-whatever the predicate is), non-zero UUIDs, finite floats, valid UTF-8.
+Draws only *canonical, well-typed* values (the domain of C01/C02; with wire_domain the domain
+of C03/C05): integers inside the Kafka type's range, whole-millisecond durations inside the
+Python-representable range, millisecond timestamps, non-zero UUIDs, finite floats, valid UTF-8.
 
-Dimensions covered per field: null / non-null (nullable), null / empty / one / many (arrays),
-default / non-default (tagged), boundary values of each primitive, string lengths around the
-one- and two-byte varint boundaries, multi-byte UTF-8.
+Dimensions covered per field: null / non-null (nullable), null / empty / one / many (arrays,
+including 126/127/128 elements), default / zero / non-default (tagged, including tagged structs
+whose members have non-zero defaults), boundary values of each primitive, string lengths around
+the one-, two- and three-byte varint boundaries and the int16 limit, multi-byte UTF-8.
+
+Profiles: "mixed" (random boundary mix), "min" (nulls, empties, defaults, lower limits),
+"max" (non-null, many, non-default, upper limits), "big" (one field of the instance gets a
+length at a large boundary: 16383/16384/32767/32768/65535/65536...).
 """
 from __future__ import annotations
 
 import datetime
 import random
 
-from .project import NULL, ablob, afloat, aint, EPOCH
+from .project import NULL, ablob, afloat, aint
 
 INT_RANGES = {
     "int8": (-(2**7), 2**7 - 1), "int16": (-(2**15), 2**15 - 1),
@@ -28,30 +32,80 @@ TD64_LO = datetime.timedelta.min // datetime.timedelta(milliseconds=1)
 TD64_HI = (datetime.timedelta.max - datetime.timedelta(days=1)) // datetime.timedelta(milliseconds=1)
 DT_HI_S = 253402300799           # 9999-12-31T23:59:59Z in seconds
 
-UTF8_SNIPPETS = ["", "a", "kafka", "é", "日本語", "😀", "a\u0000b", "ß∂ƒ", "߿ࠀ￿"]
+UTF8_SNIPPETS = ["", "a", "kafka", "é", "日本語", "😀", "a\u0000b", "ß∂ƒ", "߿ࠀ￿", "\U0010ffff"]
 STRING_LENGTHS = [0, 1, 2, 126, 127, 128, 129]
-RARE_LENGTHS = [16382, 16383, 16384, 32767]
+BIG_LENGTHS_STRING = [16383, 16384, 32766, 32767]      # Kafka caps strings at int16 max in both forms
+BIG_LENGTHS = [16382, 16383, 16384, 32767, 32768, 65535, 65536, 70001]
+BLOBISH = ("string", "bytes", "records")
+
+
+def count_blob_fields(schema: dict) -> int:
+    n = 0
+    for fs in schema["fields"]:
+        if fs["kind"] == "struct":
+            n += count_blob_fields(fs["sub"])
+        elif fs["ktype"] in BLOBISH:
+            n += 1
+    return n
+
+
+def implicit_default(fs: dict) -> dict:
+    """Kafka's default of a field that declares none (used only to *choose* values to sample;
+    the oracle computes its own in the specification)."""
+    if fs["hasd"]:
+        return fs["dflt"]
+    if fs["arr"]:
+        return {"seq": []}
+    if fs["nul"]:
+        return NULL
+    if fs["kind"] == "struct":
+        return {"rec": [implicit_default(g) for g in fs["sub"]["fields"]]}
+    kt = fs["ktype"]
+    if kt in ("string", "bytes"):
+        return {"blob": []}
+    if kt in ("uuid", "records"):
+        return NULL
+    if kt == "float64":
+        return afloat(0.0)
+    return {"int": 0}
+
+
+def zero_value(fs: dict) -> dict:
+    """The all-zero value of a field, ignoring declared defaults."""
+    if fs["arr"]:
+        return {"seq": []}
+    if fs["kind"] == "struct":
+        return {"rec": [zero_value(g) for g in fs["sub"]["fields"]]}
+    kt = fs["ktype"]
+    if kt in ("string", "bytes"):
+        return {"blob": []}
+    if kt in ("uuid", "records"):
+        return NULL if (fs["nul"] or kt == "uuid") else {"blob": []}
+    if kt == "float64":
+        return afloat(0.0)
+    return {"int": 0}
 
 
 class Sampler:
-    def __init__(self, seed: int, profile: str = "mixed", ms_timestamps: bool = False,
+    def __init__(self, seed: int, profile: str = "mixed", ms_timestamps: bool = True,
                  wire_domain: bool = False):
         self.r = random.Random(seed)
         self.profile = profile
         self.ms_timestamps = ms_timestamps     # timestamps with non-zero milliseconds
-        self.wire_domain = wire_domain         # C03/C05: full wire domain of each type
+        self.wire_domain = wire_domain
         self.budget = 0
+        self.big_left = 0
+        self.big_p = 0.0
 
     # ----- primitives
     def _int_in(self, lo: int, hi: int) -> int:
         r = self.r
-        menu = [lo, lo + 1, -1, 0, 1, hi - 1, hi]
-        menu = [m for m in menu if lo <= m <= hi]
+        menu = [m for m in (lo, lo + 1, -1, 0, 1, hi - 1, hi) if lo <= m <= hi]
         c = r.random()
         if self.profile == "min":
-            return lo if c < 0.7 else r.choice(menu)
+            return lo if c < 0.6 else r.choice(menu)
         if self.profile == "max":
-            return hi if c < 0.7 else r.choice(menu)
+            return hi if c < 0.6 else r.choice(menu)
         if c < 0.45:
             return r.choice(menu)
         if c < 0.7:
@@ -60,47 +114,62 @@ class Sampler:
             return min(hi, max(lo, v))
         return r.randint(lo, hi)
 
-    def _text(self, legacy: bool, depth: int) -> bytes:
+    def _big_roll(self) -> bool:
+        if self.big_left > 0 and self.r.random() < self.big_p:
+            self.big_left -= 1
+            return True
+        return False
+
+    def _filled(self, n: int, text: bool) -> bytes:
+        """n bytes with few runs (cheap in run-length notation) but distinctive ends."""
         r = self.r
+        if n == 0:
+            return b""
+        if text:
+            head = r.choice(["é", "日", "", "a"]).encode()
+            tail = r.choice(["😀", "z", ""]).encode()
+            fill = r.choice(b"abkx")
+        else:
+            head = bytes([r.randrange(256)])
+            tail = bytes([r.randrange(256), 0][: r.choice([1, 2])])
+            fill = r.choice([0, 0x61, 0x80, 0xFF])
+        if len(head) + len(tail) > n:
+            return bytes([0x61 if text else fill]) * n
+        return head + bytes([fill]) * (n - len(head) - len(tail)) + tail
+
+    def _text(self, legacy: bool) -> bytes:
+        r = self.r
+        if self._big_roll():
+            return self._filled(r.choice(BIG_LENGTHS_STRING), True)
         c = r.random()
-        if c < 0.3:
+        if c < 0.3 and self.profile != "max":
             return r.choice(UTF8_SNIPPETS).encode()
-        n = r.choice(STRING_LENGTHS)
-        if depth == 0 and c > 0.97 and self.budget > 40000:
-            n = r.choice(RARE_LENGTHS)
-            self.budget -= n
-        if c < 0.5:
+        n = r.choice(STRING_LENGTHS[3:] if self.profile == "max" else STRING_LENGTHS)
+        if c < 0.55:
             return bytes(r.choice(b"abcxyz019-_.") for _ in range(n))
-        # multi-byte fill up to exactly n bytes
         out = b""
         while len(out) < n:
             ch = r.choice(["é", "日", "😀", "k", "ü"]).encode()
-            if len(out) + len(ch) <= n:
-                out += ch
-            else:
-                out += b"x" * (n - len(out))
+            out += ch if len(out) + len(ch) <= n else b"x" * (n - len(out))
         return out
 
-    def _blob(self, depth: int) -> bytes:
+    def _blob(self) -> bytes:
         r = self.r
-        n = r.choice(STRING_LENGTHS)
-        if depth == 0 and r.random() > 0.97 and self.budget > 40000:
-            n = r.choice(RARE_LENGTHS + [70000])
-            self.budget -= n
-        return bytes(r.randrange(256) for _ in range(n)) if n < 300 else bytes([r.randrange(256)]) * n
+        if self._big_roll():
+            return self._filled(r.choice(BIG_LENGTHS), False)
+        n = r.choice(STRING_LENGTHS[3:] if self.profile == "max" else STRING_LENGTHS)
+        return bytes(r.randrange(256) for _ in range(n))
 
-    def prim(self, kt: str, legacy: bool, depth: int) -> dict:
+    def prim(self, kt: str, legacy: bool) -> dict:
         r = self.r
         if kt in INT_RANGES:
             return aint(self._int_in(*INT_RANGES[kt]))
         if kt == "timedelta_i64":
-            if self.wire_domain:
-                return aint(self._int_in(TD64_LO, TD64_HI))
             return aint(self._int_in(TD64_LO, TD64_HI))
         if kt == "datetime_i64":
             s = self._int_in(0, DT_HI_S)
             ms = s * 1000
-            if self.ms_timestamps and r.random() < 0.8:
+            if self.ms_timestamps and r.random() < 0.6:
                 ms += r.choice([1, 123, 500, 999, r.randrange(1000)])
             return aint(ms)
         if kt == "error_code":
@@ -114,9 +183,9 @@ class Sampler:
                                         -2.2250738585072014e-308, 0.1, 123456.789]))
             return afloat(r.uniform(-1e6, 1e6) * 10 ** r.randint(-300, 300))
         if kt == "string":
-            return ablob(self._text(legacy, depth))
+            return ablob(self._text(legacy))
         if kt in ("bytes", "records"):
-            return ablob(self._blob(depth))
+            return ablob(self._blob())
         if kt == "uuid":
             c = r.random()
             if c < 0.2:
@@ -127,41 +196,55 @@ class Sampler:
         raise ValueError(kt)
 
     # ----- composite
+    def _null_roll(self) -> bool:
+        p = {"min": 0.85, "max": 0.0, "big": 0.1}.get(self.profile, 0.3)
+        return self.r.random() < p
+
     def item(self, fs: dict, flex: bool, depth: int, nullok: bool) -> dict:
         self.budget -= 1
         if nullok and self._null_roll():
             return NULL
         if fs["kind"] == "struct":
             return self.struct(fs["sub"], depth + 1)
-        return self.prim(fs["ktype"], not flex, depth)
+        return self.prim(fs["ktype"], not flex)
 
-    def _null_roll(self) -> bool:
-        p = {"min": 0.8, "max": 0.05}.get(self.profile, 0.3)
-        return self.r.random() < p
+    def _array_len(self, fs: dict, depth: int) -> int:
+        r = self.r
+        if self.budget <= 0:
+            return 0
+        if fs["kind"] == "prim" and fs["ktype"] not in BLOBISH and depth <= 1 and r.random() < 0.04:
+            return r.choice([126, 127, 128])
+        n = {"min": r.choice([0, 0, 1]), "max": r.choice([2, 3, 4]),
+             "big": r.choice([1, 1, 2])}.get(self.profile, r.choice([0, 1, 1, 2, 2, 3]))
+        if depth >= 2:
+            n = min(n, 2)
+        if depth >= 3:
+            n = min(n, 1)
+        return n
 
     def field(self, fs: dict, schema: dict, depth: int) -> dict:
         r = self.r
         flex = schema["flex"]
         client_id = schema["name"] == "RequestHeader" and fs["name"] == "client_id"
         tagged = fs["tag"] >= 0
-        if tagged and fs["hasd"] and r.random() < {"min": 0.8, "max": 0.1}.get(self.profile, 0.4):
-            return fs["dflt"]
+        dflt = implicit_default(fs) if tagged else None
+        if tagged:
+            c = r.random()
+            p_default = {"min": 1.0, "max": 0.0, "big": 0.5}.get(self.profile, 0.35)
+            if c < p_default:
+                return dflt
+            if fs["kind"] == "struct" and not fs["arr"] and not fs["nul"]:
+                z = zero_value(fs)
+                if z != dflt and r.random() < (0.7 if self.profile == "max" else 0.3):
+                    return z          # all-zero struct where the declared defaults are not zero
         if fs["arr"]:
-            if fs["nul"] and self._null_roll() and not (tagged and "null" not in fs["dflt"]):
+            if fs["nul"] and self._null_roll() and not (tagged and "null" not in dflt):
                 return NULL
-            if self.budget <= 0:
-                n = 0
-            else:
-                n = {"min": r.choice([0, 0, 1]), "max": r.choice([2, 3, 4])}.get(
-                    self.profile, r.choice([0, 1, 1, 2, 2, 3]))
-                if depth >= 2:
-                    n = min(n, 2)
-                if depth >= 3:
-                    n = min(n, 1)
+            n = self._array_len(fs, depth)
             return {"seq": [self.item(fs, flex, depth, fs["inul"]) for _ in range(n)]}
         nullok = fs["nul"] or client_id
-        if tagged and fs["nul"] and "null" not in fs["dflt"]:
-            nullok = False      # a null here would have to be written explicitly: outside kio's documented support
+        if tagged and fs["nul"] and "null" not in dflt:
+            nullok = False      # would need an explicit null on the wire: outside kio's writer support
         if fs["kind"] == "prim" and fs["ktype"] == "uuid":
             nullok = True
         return self.item(fs, False if client_id else flex, depth, nullok)
@@ -169,6 +252,10 @@ class Sampler:
     def struct(self, schema: dict, depth: int = 0) -> dict:
         return {"rec": [self.field(fs, schema, depth) for fs in schema["fields"]]}
 
-    def value(self, schema: dict, budget: int = 60000) -> dict:
+    def value(self, schema: dict, budget: int = 400) -> dict:
         self.budget = budget
+        if self.profile == "big":
+            n = count_blob_fields(schema)
+            self.big_left = 1
+            self.big_p = 1.0 if n <= 1 else min(1.0, 2.0 / n)
         return self.struct(schema, 0)
